@@ -1381,7 +1381,10 @@ def havoc_value(eng, v, base="h"):
     if isinstance(v, (MapVal, SeqBox, ObjVal)):
         havoc(eng, v)
         return v
-    if isinstance(v, (int, str, bool)) or v is None:
+    if v is None:
+        # the value before the loop is None and the loop assigns the name: its type inside the loop is unknown to the engine
+        raise OutOfSubset("variable %s is None before a loop that assigns it; its type is not known to the contract" % base)
+    if isinstance(v, (int, str, bool)):
         # a concrete value assigned in a loop: becomes an unknown of the same python type
         if isinstance(v, bool):
             return TBool.fresh(base)
